@@ -6,6 +6,10 @@ package kubeeventsmanager
 import (
 	"context"
 
+	"k8s.io/apimachinery/pkg/apis/meta/v1/unstructured"
+
+	"github.com/flant/shell-operator/pkg/filter/jq"
+
 	kemtypes "github.com/flant/shell-operator/pkg/kube_events_manager/types"
 	"github.com/flant/shell-operator/pkg/metric"
 )
@@ -76,3 +80,8 @@ func (f *VFakeManager) StopMonitor(id string) error {
 }
 func (f *VFakeManager) Ch() chan kemtypes.KubeEvent { return f.EventCh }
 func (f *VFakeManager) PauseHandleEvents()          { f.Paused = true }
+
+// VApplyFilter exposes applyFilter with the real jq filter (exporter only).
+func VApplyFilter(jqFilter string, obj *unstructured.Unstructured) (*kemtypes.ObjectAndFilterResult, error) {
+	return applyFilter(jqFilter, jq.NewFilter(), nil, obj)
+}
